@@ -266,3 +266,21 @@ func firstLine(s string) string {
 	}
 	return s
 }
+
+// hookMissing reports whether the tree under test lacks one of the named
+// event hooks (census taken by the driver at build time). Oracles that need
+// the event are then switched off: silence of a removed hook is not evidence.
+func hookMissing(names ...string) bool {
+	m := os.Getenv("VERIF_MISSING_HOOKS")
+	if m == "" {
+		return false
+	}
+	for _, have := range strings.Split(m, ",") {
+		for _, n := range names {
+			if have == n {
+				return true
+			}
+		}
+	}
+	return false
+}
